@@ -1,5 +1,6 @@
 """C12 - periodic Hellos: pacing, purpose, silence."""
 from props.base import *
+NEEDS_VIEW = True     # reads the public fields of the automata objects
 COQ_TARGETS = ['props/Properties_C12.vo']
 CORR_IS_SPEC = False
 RULE = ('random interleavings (150 ops) of tick / clock advance (0..120000 ms, dense around 999/1000/1001 and the 300 ms block time) / session add, refresh, '
